@@ -249,7 +249,7 @@ def doBall (n : ℕ) (parts : List String) : String :=
 /-! ### C15/C16: the truncated conjugate-gradient loop, exact
 `tcg n fuel | g ; H ; xl ; xu ; delta`   (bounds: `none` or a rational)
      -> `ok step..` : the step of `Cobyqa.Tcg.tcg` run in exact rational arithmetic with `TINY = 0`, `rtol = 1e-8`,
-        `descThr g = 10 eps n max(1, |g|)` (norm rounded up) and `_alpha_tr` proposed in binary64 and CHECKED exactly
+        `descThr g = 10 eps n max(1, |g_free|)` (norm rounded up; the model passes the gradient masked by the free set) and `_alpha_tr` proposed in binary64 and CHECKED exactly
         (`checkedATr`; `driver_params_ok` shows these parameters meet the hypotheses of the loop theorems) -/
 /-- nearest-ish binary64 value of a rational whose numerator and denominator may have thousands of bits (only used to
 PROPOSE values that are then checked exactly) -/
